@@ -542,6 +542,7 @@ class _Atom:
     expr: Expr
     kind: str          #: 'int' 'float' 'str' 'bool' 'bytes' or 'enum:<name>'
     constrained: bool  #: typed by a constrained primitive (no arithmetic, ``len`` only under a flag)
+    const: bool = False  #: a meta-model constant (never the only ingredient of a comparison)
 
 
 class _Gen:
@@ -745,7 +746,7 @@ class _Gen:
             base += self.pick([" — né?", " \U0001F600"])
         return base
 
-    def len_bound(self, key: Tuple[str, str], subject: Expr) -> Optional[Expr]:
+    def len_bound(self, key: Tuple[str, str], subject: Expr, allow_min: bool = True) -> Optional[Expr]:
         """
         A recognised length comparison on ``subject`` (random operator, random operand order)
         that keeps the window promised so far for ``key`` satisfiable; None if nothing fits.
@@ -759,7 +760,7 @@ class _Gen:
             lo, hi = 0, 10**6
         floor = 0 if ft.len_bounds_admitting_zero else 1
         low = max(lo, floor)
-        form = self.pick(["min", "max", "exact", "min", "max"])
+        form = self.pick(["min", "max", "exact", "min", "max"]) if allow_min else "max"
         e: Comparison
         if form == "exact":
             if known and not ft.crossing_len_bounds:
@@ -1036,6 +1037,32 @@ class _Gen:
             return False
         return pr in ("str", "bytes") or isinstance(beneath_optional(t), ListOf)
 
+    def item_reaches(self, t: Type, owner: str) -> bool:
+        """Can a value of (list) type ``t`` contain, however deep, an instance of ``owner`` or a relative of it?"""
+        mm = self.mm
+        related = {owner} | set(ancestors(mm, owner)) | set(descendants(mm, owner))
+
+        def refs(x: Type) -> Iterator[str]:
+            if isinstance(x, Ref):
+                if isinstance(mm.find(x.name), Class):
+                    yield x.name
+            elif isinstance(x, (ListOf, OptionalOf)):
+                yield from refs(x.item)
+
+        seen: Set[str] = set()
+        stack = list(refs(t))
+        while stack:
+            n = stack.pop()
+            for k in [n] + descendants(mm, n):
+                if k in seen:
+                    continue
+                seen.add(k)
+                if k in related:
+                    return True
+                for q, _ in all_props(mm, k):
+                    stack.extend(refs(q.type))
+        return False
+
     def schema_invariant(self, c: Class, props: List[Prop]) -> Optional[Expr]:
         cands: List[Tuple[str, Prop]] = []
         for p in props:
@@ -1065,7 +1092,9 @@ class _Gen:
             t0 = beneath_optional(p.type)
             if key not in self.len_window and isinstance(t0, Ref) and (t0.name, "self") in self.len_window:
                 self.len_window[key] = self.len_window[(t0.name, "self")]
-            body = self.len_bound(key, subject)
+            # a lower bound on a list whose items can contain the owner again admits no finite instance
+            allow_min = not (isinstance(t0, ListOf) and self.item_reaches(t0, c.name))
+            body = self.len_bound(key, subject, allow_min=allow_min)
             if body is None:
                 return None
         elif kind == "pattern":
@@ -1108,7 +1137,7 @@ class _Gen:
                         out.append(_Atom(Member(here, q.name), qpr, self.is_cp(q.type)))
         if root is SELF:
             for cst in self.mm.constants:
-                out.append(_Atom(Name(cst.name), cst.type, False))
+                out.append(_Atom(Name(cst.name), cst.type, False, const=True))
         return out
 
     def num_expr(self, kind: str, atoms: List[_Atom], depth: int) -> Expr:
@@ -1141,15 +1170,25 @@ class _Gen:
         ])
 
     def bool_leaf(self, atoms: List[_Atom]) -> Optional[Expr]:
-        if not atoms:
+        own = [x for x in atoms if not x.const]
+        if not own:
             return None
-        a = self.pick(atoms)
+        a = self.pick(own)
         k = a.kind
         if k == "bool":
             return a.expr if self.chance(0.6) else Comparison(a.expr, self.pick(["==", "!="]), Constant(self.chance(0.5)))
         if k in ("int", "float"):
-            left = a.expr if a.constrained else self.num_expr(k, atoms, 1)
-            return Comparison(left, self.pick(list(("<", "<=", ">", ">=", "==", "!="))), self.num_expr(k, atoms, 1))
+            # the left side mentions a property; the right side is something else (else: tautology/contradiction)
+            left = a.expr
+            if not a.constrained and self.chance(0.3):
+                left = Add(left, self.num_expr(k, atoms, 0)) if self.chance(0.5) else Sub(left, self.num_expr(k, atoms, 0))
+            for _ in range(5):
+                right = self.num_expr(k, atoms, 1)
+                if right != left and right != a.expr:
+                    break
+            else:
+                right = Constant(1) if k == "int" else Constant(1.5)
+            return Comparison(left, self.pick(list(("<", "<=", ">", ">=", "!=", "<=", ">="))), right)
         if k == "str":
             r = self.rng.random()
             if r < 0.3 and self.len_allowed_atom(a):
@@ -1160,9 +1199,9 @@ class _Gen:
                     return FunctionCall(self.pick(fns).name, (a.expr,))
             if r < 0.7 and self.ft.joined_str_in_invariants:
                 return Comparison(a.expr, "==", JoinedStrOf(("x-", a.expr)))
-            strs = [b.expr for b in atoms if b.kind == "str"]
-            other = self.pick(strs) if self.chance(0.3) else Constant(self.pick(STR_PLAIN))
-            return Comparison(a.expr, self.pick(["==", "!="]), other)
+            strs = [b.expr for b in atoms if b.kind == "str" and b.expr != a.expr]
+            other = self.pick(strs) if strs and self.chance(0.3) else Constant(self.pick(STR_PLAIN))
+            return Comparison(a.expr, self.pick(["==", "!=", "!="]), other)
         if k == "bytes":
             if self.len_allowed_atom(a):
                 return self.unrecognised_len_comparison(a.expr)
@@ -1443,8 +1482,15 @@ def mutants(mm: MM, rng: Optional[random.Random] = None, max_sites_per_rule: int
             return xs
         return rng.sample(xs, max_sites_per_rule)
 
-    def clone() -> MM:
-        return copy.deepcopy(mm)
+    def clone(freeze: bool = True) -> MM:
+        """A deep copy; with ``freeze`` every class gets its (valid) constructor spelled out, so that a
+        mutation of properties or bases changes nothing but the mutated spot."""
+        m = copy.deepcopy(mm)
+        if freeze:
+            for c in m.classes:
+                if c.ctor is None:
+                    c.ctor = default_ctor(mm, c.name)
+        return m
 
     def emit(rule: str, m: MM) -> Tuple[str, str]:
         assert rule in RULES, rule
@@ -1484,7 +1530,6 @@ def mutants(mm: MM, rng: Optional[random.Random] = None, max_sites_per_rule: int
     for n in sites(with_props):
         m = clone()
         c = m.cls(n)
-        c.ctor = default_ctor(m, n)
         c.props.append(copy.deepcopy(c.props[0]))
         yield emit("duplicate_property_name", m)
     for cst in sites(mm.constants):
@@ -1506,19 +1551,19 @@ def mutants(mm: MM, rng: Optional[random.Random] = None, max_sites_per_rule: int
     # ---- reserved names
     for new in sites(["Class", "Path", "Error", "String", "Visitor", "Record", "Transformer"]):
         if mm.classes:
-            m = clone()
+            m = clone(freeze=False)
             _rename_class(m, m.classes[0].name, new)
             yield emit("reserved_type_name", m)
     for new in ("I_something", "Must_something"):
         if mm.classes:
-            m = clone()
+            m = clone(freeze=False)
             _rename_class(m, m.classes[-1].name, new)
             yield emit("reserved_type_prefix", m)
     for n in sites(with_props):
         for new in sites(["type_name", "model_type", "descend", "mutable_thing", "class", "for", "accept"]):
             if new in ("class", "for"):
                 continue  # not even Python
-            m = clone()
+            m = clone(freeze=False)
             _rename_prop(m, n, m.cls(n).props[0].name, new)
             yield emit("reserved_property_name", m)
     for cst in sites(mm.constants):
@@ -1534,7 +1579,6 @@ def mutants(mm: MM, rng: Optional[random.Random] = None, max_sites_per_rule: int
         if inherited:
             m = clone()
             c = m.cls(n)
-            c.ctor = default_ctor(m, n)
             c.props.append(copy.deepcopy(inherited[0]))
             yield emit("redeclared_inherited_property", m)
     for n in sites(with_bases):
@@ -1642,13 +1686,11 @@ def mutants(mm: MM, rng: Optional[random.Random] = None, max_sites_per_rule: int
     for n in sites(with_props):
         c0 = mm.cls(n)
         for rule, wrap in (("nested_optional", lambda t: OptionalOf(OptionalOf(beneath_optional(t)))), ("list_of_optional", lambda t: ListOf(OptionalOf(beneath_optional(t) if not isinstance(beneath_optional(t), ListOf) else Prim("str"))))):
-            m = clone()
+            m = clone(freeze=False)
             p = m.cls(n).props[0]
             p.type = wrap(p.type)
-            for d in [n] + descendants(m, n):
-                m.cls(d).ctor = None
             yield emit(rule, m)
-        m = clone()
+        m = clone(freeze=False)
         p = m.cls(n).props[0]
         p.type = Ref("Nonexistent_type")
         yield emit("dangling_type_reference", m)
